@@ -608,6 +608,46 @@ fn scale(tier: Tier, totals: &mut Totals) {
     let _ = std::fs::remove_dir_all(&dir);
     let _ = std::fs::create_dir_all(&dir);
     let d = dir.to_string_lossy().to_string();
+    // what was read is what is written: bytes read from a file belong to their handle - they stay what
+    // they were when the file changes, is read again (under this or another spelling of its path), is
+    // removed; a second read is a collection of its own
+    for (how, change) in [
+        ("writefile", "writefile ${a} second-content"),
+        ("appendfile", "appendfile ${a} -more"),
+        ("write_binary_file", "hx = string_to_bytes second-content\nwrite_binary_file ${a} ${hx}"),
+        ("cp-over", "writefile ${d}/src.bin second-content\ncp ${d}/src.bin ${a}"),
+        ("rm-and-write", "rm ${a}\nwritefile ${a} second-content"),
+        ("nothing", "x = set 1"),
+    ] {
+        for again in ["${a}", "${d}/sub/../a.bin", "${d}/./a.bin"] {
+            let second = match how {
+                "appendfile" => "one-more",
+                "nothing" => "one",
+                _ => "second-content",
+            };
+            let text = format!(
+                "d = set \"{d}\"\na = set \"{d}/a.bin\"\nmkdir ${{d}}/sub\nwritefile ${{a}} one\nh1 = read_binary_file ${{a}}\n{change}\nh2 = read_binary_file {again}\nsame_handle = equals ${{h1}} ${{h2}}\nwrite_binary_file ${{d}}/b.bin ${{h1}}\nwrite_binary_file ${{d}}/c.bin ${{h2}}\nt1 = readfile ${{d}}/b.bin\nt2 = readfile ${{d}}/c.bin\ns1 = bytes_to_string ${{h1}}\ns2 = bytes_to_string ${{h2}}\nr1 = release ${{h1}}\ns2b = bytes_to_string ${{h2}}\nr2 = release ${{h2}}\nrm ${{d}}/b.bin\nrm ${{d}}/c.bin\nrm ${{a}}",
+                d = d,
+                change = change,
+                again = again
+            );
+            crate::util::scale_case_totals(
+                totals,
+                &format!("bytes-belong-to-their-handle {} read again as {}", how, again),
+                &text,
+                &[
+                    ("same_handle", Some("false".into())),
+                    ("t1", Some("one".into())),
+                    ("t2", Some(second.to_string())),
+                    ("s1", Some("one".into())),
+                    ("s2", Some(second.to_string())),
+                    ("r1", Some("true".into())),
+                    ("s2b", Some(second.to_string())),
+                    ("r2", Some("true".into())),
+                ],
+            );
+        }
+    }
     let sizes: Vec<usize> = tier.pick(vec![4095, 8192, 8193, 65537], vec![4095, 4096, 8191, 8192, 8193, 65535, 65536, 65537, 1_000_003, 5_000_001]);
     for (variant, &n) in sizes.iter().flat_map(|n| [(0u8, n), (1u8, n)]) {
         // the text is built by doubling a 16-character block and cut to size; variant 1 puts an e-acute
@@ -698,7 +738,7 @@ pub fn replay(case: &Value) -> Result<String, String> {
     Ok(out.join("\n").replace(&d, "<scratch>"))
 }
 
-pub const RULE: &str = "explicit-state breadth-first search from the empty directory to a fixpoint: writefile / appendfile with 3 contents, write/read binary file, readfile, touch, mkdir, cp and mv for every ordered pair of paths, rm, rm -r, rmdir, is_path_exists, is_file, is_dir, get_file_size and a recursive glob_array listing, over the paths {a.txt, d, d/b.txt, (d/e/c.txt,) 's p/ü.txt'} and the directories d/e and 's p'; operations that would exceed the entry or size bound are disabled; operations the documentation does not fix in the current state (directory sources of cp/mv, mv to a missing extension-less path, touch on a directory) are not generated. Each transition materialises the tree in a fresh scratch directory, runs the real command with absolute paths, snapshots the directory and compares output and the complete tree with the model (a failing operation must leave the tree unchanged). basename / dirname / join_path are swept separately (they do not depend on the tree). evaluations = transitions; distinct_nontrivial = distinct trees. Scale cases: write / read / size / cp / append / mv / overwrite with contents of 4095..65537 bytes (thorough: up to 5 MB), plain and with a two-byte character across the middle; 12 short contents that start or end with a byte order mark, line breaks, blanks, TAB, no-break / ideographic space, '#', a quote (write / read / size / cp / append)";
+pub const RULE: &str = "explicit-state breadth-first search from the empty directory to a fixpoint: writefile / appendfile with 3 contents, write/read binary file, readfile, touch, mkdir, cp and mv for every ordered pair of paths, rm, rm -r, rmdir, is_path_exists, is_file, is_dir, get_file_size and a recursive glob_array listing, over the paths {a.txt, d, d/b.txt, (d/e/c.txt,) 's p/ü.txt'} and the directories d/e and 's p'; operations that would exceed the entry or size bound are disabled; operations the documentation does not fix in the current state (directory sources of cp/mv, mv to a missing extension-less path, touch on a directory) are not generated. Each transition materialises the tree in a fresh scratch directory, runs the real command with absolute paths, snapshots the directory and compares output and the complete tree with the model (a failing operation must leave the tree unchanged). basename / dirname / join_path are swept separately (they do not depend on the tree). evaluations = transitions; distinct_nontrivial = distinct trees. Scale cases: write / read / size / cp / append / mv / overwrite with contents of 4095..65537 bytes (thorough: up to 5 MB), plain and with a two-byte character across the middle; 12 short contents that start or end with a byte order mark, line breaks, blanks, TAB, no-break / ideographic space, '#', a quote (write / read / size / cp / append). Bytes belong to their handle: read, change the file in one of 6 ways (or not), read again under one of 3 spellings of the path: two handles, each with the bytes of its moment, written out and released independently";
 pub const ASSUMPTIONS: &[&str] = &["the scratch directory is on tmpfs (/dev/shm) or a local file system without symlinks, permissions left at their defaults", "the output of rm on a missing path and of cp / mv of a file onto itself is not compared (only the tree, which must be unchanged)"];
 pub const EXHAUSTIVE: bool = true;
 pub const WALL_CAP_S: (u64, u64) = (58, 1500);
